@@ -125,6 +125,27 @@ def run(ctx, res):
         res.evaluations += 1
         if not family.same(a, b):
             res.violations.append({'key': None, 'sig': 'library', 'what': 'materialize_set differs between number_of_processes=1 and 4', 'replay': {'case': small}})
+    # a user-defined function with module-level state, used by several mapping groups: the result must not depend on how the groups
+    # are spread over processes
+    EXN = mapcase.EX
+    def tmx(k, v, ck='iri', tt=''):
+        return {'k': k, 'v': v, 'ck': ck, 'tt': tt}
+    for rep in range(ctx.scale(2, 8)):
+        n = ctx.rng.choice([4, 6, 9])
+        rows = [[str(i + 1), ctx.rng.choice(['a', 'b', 'c', 'd']), ctx.rng.choice(['c', 'd', 'e', 'a'])] for i in range(n)]
+        execs = [{'id': EXN + 'ex/E%d' % j, 'fun': EXN + 'fn/seq', 'inputs': [[EXN + 'fn/p_v', 'ref', col]]} for j, col in enumerate(['v', 'w', 'v'])]
+        poms = [{'preds': [tmx('const', EXN + 'p/q%d' % j)], 'objs': [{'m': tmx('exec', EXN + 'ex/E%d' % j, 'iri', 'lit'), 'lang': None, 'dt': None, 'joins': []}], 'graphs': []} for j in range(3)]
+        case = {'cfg': {'nquads': False, 'mode': 'PARTIAL-AGGREGATIONS', 'udfs': 'udfs_state.py', 'udf_source': 'udfs_state.py'},
+                'sources': [{'key': 'S0', 'kind': 'csv', 'cols': ['id', 'v', 'w'], 'rows': rows}],
+                'doc': [{'id': EXN + 'tm/T', 'src': 'S0', 'nonasserted': False, 'subj': tmx('templ', EXN + 'r/{id}'), 'sjoins': [], 'classes': [], 'sgraphs': [], 'poms': poms}],
+                'execs': execs}
+        batch = family.Batch(ctx)
+        outs = [batch.run([case], want_spec=False, cfg_override={'procs': pr})[0]['impl'] for pr in (1, 3, 1)]
+        res.evaluations += 1
+        res.count('stateful-udf')
+        if not (family.same(outs[0], outs[1]) and family.same(outs[0], outs[2])):
+            res.violations.append({'key': None, 'sig': 'stateful-udf', 'what': 'a stateful user-defined function used by three mapping groups: number_of_processes 1 / 3 / 1 give %s' % [str(o)[:120] for o in outs],
+                                   'replay': {'case': case}})
     res.samples = [{'rows': s[0], 'share_of_long_lines': s[1], 'mode': s[2]} for s in specs[:4]]
 
 
